@@ -453,10 +453,12 @@ func init() {
 			us2, es2 := buildDecorateNode(p, tier)
 			us3, es3 := buildFuncUnits(p, []string{fd("decorateSelectorExpr"), pkgDecorator + ".mergeDecorations", fd("decorateObject"), fd("decorateScope"), fr("restoreObject"), fr("restoreScope"),
 				pkgDecorator + ".(*Decorator).DecorateNode", pkgDecorator + ".(*Decorator).DecorateFile", pkgDecorator + ".(*Decorator).ParseFile", pkgDecorator + ".(*Decorator).Parse"}, nil)
+			us4, es4 := buildRestoreFile(p, tier)
+			us3, es3 = append(us3, us4...), append(es3, es4...)
 			return append(append(us, us2...), us3...), append(append(es, es2...), es3...)
 		},
 		Select: func(n string) bool {
-			return reMaps.MatchString(n) || strings.Contains(n, "#fields:") || strings.Contains(n, "#maps:registered_before_recursion") ||
+			return reMaps.MatchString(n) || strings.HasPrefix(n, "RestoreFile#maps:") || strings.Contains(n, "#fields:") || strings.Contains(n, "#maps:registered_before_recursion") ||
 				strings.Contains(n, "decorateSelectorExpr#") || strings.Contains(n, "mergeDecorations#") ||
 				// the object/scope conversions reach the node maps through decorateNode: entries only grow, Decl/Data are map counterparts
 				reObjNodeMaps.MatchString(n) || reDecorateAux.MatchString(n)
